@@ -10,13 +10,22 @@ import MiniVecProof.Props.C12CloneFrom
 import MiniVecProof.Props.C04DrainFilter
 import MiniVecProof.Props.C19Mem
 import MiniVecProof.Props.C14
+import MiniVecProof.Props.C07Stable
 /-
-  C03 / C01 — many vectors at once: the register machine of `Model/World.lean` (the thing the line-protocol driver
-  runs against the real code) keeps EVERY vector register well formed, whatever operations are applied to whichever
-  register in whatever order, and no step ends in an illegal access, a failed internal assertion or a hang.
+  C03 / C01 — many vectors and iterators at once: the register machine of `Model/World.lean` (the thing the
+  line-protocol driver runs against the real code, `stepAll`) keeps EVERY register well formed — vectors (`Abs`),
+  and `Drain` / `Splice` / `DrainFilter` / `IntoIter` held in registers while other registers are operated on
+  (`DrainInv`, `DFInv`, `IntoInv`) — whatever operations are applied to whichever register in whatever order and with
+  whatever arguments, and no step ends in an illegal access, a failed internal assertion or a hang: a step either
+  returns or stops in a sanctioned way (`Panic.benign`: a panic that unwinds, the allocation-failure abort; the
+  double-panic abort is also `benign` — it cannot arise here because no callback panics, but the statement does not
+  exclude it). `C03_world_all_histories`; callbacks that panic are C04's subject.
 
-  (PARTIAL: the single-register operations and the constructors below; two-register operations, iterators held in
-  registers across other operations, raw parts and serde are decided by the correspondence.)
+  Covered: the constructors (new, default, with_capacity, with_alignment, From<&[T]>, collect, both macro forms,
+  deserialize), every single-vector operation, append / split_off / drain_vec / clone / clone_from / compare, the four
+  iterators (creation with any range, next, next_back, nth, nth_back, size_hint, len, as_slice, clone, drop, forget),
+  serialize, deserialize_in_place, the raw round trips, the spare-capacity API (spare, split_spare, fill_spare),
+  views, leak, drop, forget, count, clone_from_iter, from_str, extend_ref: every operation of the protocol.
 -/
 namespace MV.Props
 open MV MV.Gen MV.GM VM
@@ -40,22 +49,6 @@ theorem VSafe.mk {X : Ctx} {α} (val : Int) {f : Elem → VM α} (h : ∀ e, VSa
   intro s es habs
   have := h ⟨s.sys.nextId, val⟩ { s with sys := { s.sys with nextId := s.sys.nextId + 1 } } es habs
   simpa only [VM.bind_run, mkElem_run] using this
-
-theorem mapM_loop_mkElem (vals : List Int) : ∀ (acc : List Elem) (s : St),
-    ∃ es s', List.mapM.loop VM.mkElem vals acc s = (.ok (acc.reverse ++ es), s') ∧ s'.v = s.v ∧ es.map (·.val) = vals := by
-  induction vals with
-  | nil => intro acc s; exact ⟨[], s, by simp [List.mapM.loop, VM.pure_run], rfl, rfl⟩
-  | cons v rest ih =>
-    intro acc s
-    obtain ⟨es, s', hr, hv, hvals⟩ := ih (⟨s.sys.nextId, v⟩ :: acc) { s with sys := { s.sys with nextId := s.sys.nextId + 1 } }
-    refine ⟨⟨s.sys.nextId, v⟩ :: es, s', ?_, hv, by simp [hvals]⟩
-    simp only [List.mapM.loop, VM.bind_run, mkElem_run, hr]
-    simp
-
-theorem mapM_mkElem_run (vals : List Int) (s : St) :
-    ∃ es s', vals.mapM VM.mkElem s = (.ok es, s') ∧ s'.v = s.v ∧ es.map (·.val) = vals := by
-  obtain ⟨es, s', hr, hv, hvals⟩ := mapM_loop_mkElem vals [] s
-  exact ⟨es, s', by simpa [List.mapM] using hr, hv, hvals⟩
 
 theorem VSafe.mkMany {X : Ctx} {α} (vals : List Int) {f : List Elem → VM α} (h : ∀ es, VSafe X (f es)) :
     VSafe X (do let es ← vals.mapM VM.mkElem; f es) := by
@@ -143,8 +136,8 @@ def RegOK (X : Ctx) : Obj → Prop
 
 def WFW (X : Ctx) (w : World) : Prop := ∀ r o, w.get r = some o → RegOK X o
 
-/-- the step did not end in an illegal access, a failed internal assertion, a hang or an abort other than the
-    allocation-failure abort -/
+/-- the step returned, or stopped in a sanctioned way: not by an illegal access (`ub`), a failed internal assertion
+    or a hang (fuel) -/
 def outSane : Out → Prop
   | .stopped p => Panic.benign p = true
   | _ => True
@@ -454,27 +447,34 @@ theorem DrainInv.prefix_abs {X : Ctx} {v : VSt} {es : List Elem} {st en : Nat} {
   rw [hv] at this; exact this
 
 /-- one step of a `Drain` held in a register -/
-theorem drain_reg_step (X : Ctx) (src : String) (v : VSt) (d : DrainSt) (sys : Sys) (back : Bool)
+theorem drain_reg_step_m (X : Ctx) (src : String) (v : VSt) (d : DrainSt) (sys : Sys) (back : Bool)
     (h : RegOK X (.drain src v d)) :
     ∃ o d', (if back then Drain.next_back d else Drain.next d) { sys := sys, v := v } = (.ok (o, d'), { sys := sys, v := v }) ∧
-      RegOK X (.drain src v d') := by
+      RegOK X (.drain src v d') ∧ (o.isSome = true → d'.stop - d'.pos < d.stop - d.pos) := by
   rcases h with ⟨es, st, en, hinv⟩ | ⟨hd, habs, hge, ht⟩
   · by_cases hlt : d.pos < d.stop
     · cases back with
       | false =>
-        refine ⟨_, _, by simpa using drain_next_some (s := { sys := sys, v := v }) hinv hlt, .inl ⟨es, st, en, ?_⟩⟩
+        refine ⟨_, _, by simpa using drain_next_some (s := { sys := sys, v := v }) hinv hlt, .inl ⟨es, st, en, ?_⟩, fun _ => by simp; omega⟩
         exact { hinv with lo := by have := hinv.lo; simp; omega, mid := by simp; omega }
       | true =>
-        refine ⟨_, _, by simpa using drain_next_back_some (s := { sys := sys, v := v }) hinv hlt, .inl ⟨es, st, en, ?_⟩⟩
+        refine ⟨_, _, by simpa using drain_next_back_some (s := { sys := sys, v := v }) hinv hlt, .inl ⟨es, st, en, ?_⟩, fun _ => by simp; omega⟩
         exact { hinv with hi := by have := hinv.hi; simp; omega, mid := by simp; omega }
     · obtain ⟨h1, h2⟩ := drain_next_none d { sys := sys, v := v } (by omega)
       cases back with
-      | false => exact ⟨none, d, by simpa using h1, .inl ⟨es, st, en, hinv⟩⟩
-      | true => exact ⟨none, d, by simpa using h2, .inl ⟨es, st, en, hinv⟩⟩
+      | false => exact ⟨none, d, by simpa using h1, .inl ⟨es, st, en, hinv⟩, fun h => by simp at h⟩
+      | true => exact ⟨none, d, by simpa using h2, .inl ⟨es, st, en, hinv⟩, fun h => by simp at h⟩
   · obtain ⟨h1, h2⟩ := drain_next_none d { sys := sys, v := v } hge
     cases back with
-    | false => exact ⟨none, d, by simpa using h1, .inr ⟨hd, habs, hge, ht⟩⟩
-    | true => exact ⟨none, d, by simpa using h2, .inr ⟨hd, habs, hge, ht⟩⟩
+    | false => exact ⟨none, d, by simpa using h1, .inr ⟨hd, habs, hge, ht⟩, fun h => by simp at h⟩
+    | true => exact ⟨none, d, by simpa using h2, .inr ⟨hd, habs, hge, ht⟩, fun h => by simp at h⟩
+
+theorem drain_reg_step (X : Ctx) (src : String) (v : VSt) (d : DrainSt) (sys : Sys) (back : Bool)
+    (h : RegOK X (.drain src v d)) :
+    ∃ o d', (if back then Drain.next_back d else Drain.next d) { sys := sys, v := v } = (.ok (o, d'), { sys := sys, v := v }) ∧
+      RegOK X (.drain src v d') := by
+  obtain ⟨o, d', hr, hok, _⟩ := drain_reg_step_m X src v d sys back h
+  exact ⟨o, d', hr, hok⟩
 
 /-- one step of an `IntoIter` held in a register -/
 theorem into_reg_step (X : Ctx) (v : VSt) (it : IntoIterSt) (sys : Sys) (back : Bool)
@@ -655,6 +655,274 @@ theorem raw_roundtrip_run (X : Ctx) (s : St) (es : List Elem) (h : Abs X s.v es)
       lift_read X _ s _ (as_mut_ptr_run_default X.env _ (by simp [hsOf, hd]))
     constructor <;> refine ⟨none, ?_⟩ <;> unfold Vec.raw_roundtrip <;> simp only [VM.bind_run, hp, VM.pure_run]
 
+/-! ### Comparisons only call back into user code: the vectors are not touched -/
+
+/-- a computation that always returns and leaves the focused vector alone -/
+def VPure {α} (x : VM α) : Prop := ∀ s, ∃ a s', x s = (.ok a, s') ∧ s'.v = s.v
+
+theorem VPure.pure' {α} (a : α) : VPure (pure a : VM α) := fun s => ⟨a, s, rfl, rfl⟩
+
+theorem VPure.bind' {α β} {x : VM α} {f : α → VM β} (hx : VPure x) (hf : ∀ a, VPure (f a)) : VPure (x >>= f) := by
+  intro s
+  obtain ⟨a, s1, h1, hv1⟩ := hx s
+  obtain ⟨b, s2, h2, hv2⟩ := hf a s1
+  exact ⟨b, s2, by simp only [VM.bind_run, h1, h2], hv2.trans hv1⟩
+
+theorem vpure_callback (X : Ctx) (hq : ∀ k, X.o.panicAt k = false) : VPure (VM.callback X) := by
+  intro s
+  exact ⟨(), { s with sys := { s.sys with cbIdx := s.sys.cbIdx + 1 } }, by simp [VM.callback, hq], rfl⟩
+
+theorem vpure_eqElem (X : Ctx) (hq : ∀ k, X.o.panicAt k = false) (a b : Elem) : VPure (Vec.eqElem X a b) := by
+  intro s
+  unfold Vec.eqElem
+  simp only [VM.callback, hq, Bool.false_eq_true, if_false]
+  exact ⟨_, _, rfl, rfl⟩
+
+theorem vpure_eqSlices (X : Ctx) (hq : ∀ k, X.o.panicAt k = false) : ∀ (a b : List Elem), VPure (Vec.eqSlices X a b) := by
+  intro a
+  induction a with
+  | nil => intro b; cases b <;> (unfold Vec.eqSlices; exact VPure.pure' _)
+  | cons x xs ih =>
+    intro b
+    cases b with
+    | nil => unfold Vec.eqSlices; exact VPure.pure' _
+    | cons y ys =>
+      unfold Vec.eqSlices
+      refine VPure.bind' (vpure_eqElem X hq x y) (fun r => ?_)
+      cases r
+      · exact VPure.pure' _
+      · exact ih ys
+
+theorem vpure_cmpSlices (X : Ctx) (hq : ∀ k, X.o.panicAt k = false) : ∀ (a b : List Elem), VPure (Vec.cmpSlices X a b) := by
+  intro a
+  induction a with
+  | nil => intro b; cases b <;> (unfold Vec.cmpSlices; exact VPure.pure' _)
+  | cons x xs ih =>
+    intro b
+    cases b with
+    | nil => unfold Vec.cmpSlices; exact VPure.pure' _
+    | cons y ys =>
+      unfold Vec.cmpSlices
+      refine VPure.bind' (vpure_callback X hq) (fun _ => ?_)
+      split
+      · exact VPure.pure' _
+      · split
+        · exact VPure.pure' _
+        · exact ih ys
+
+theorem vpure_forN_go (f : Nat → VM Unit) (hf : ∀ i, VPure (f i)) : ∀ (k i : Nat), VPure (VM.forN.go f k i) := by
+  intro k
+  induction k with
+  | zero => intro i; unfold VM.forN.go; exact VPure.pure' _
+  | succ k ih => intro i; unfold VM.forN.go; exact VPure.bind' (hf i) (fun _ => ih (i + 1))
+
+theorem vpure_forN (f : Nat → VM Unit) (hf : ∀ i, VPure (f i)) (n : Nat) : VPure (VM.forN n f) := by
+  unfold VM.forN; exact vpure_forN_go f hf n 0
+
+theorem vpure_compareSlices (X : Ctx) (hq : ∀ k, X.o.panicAt k = false) (a b : List Elem) : VPure (Vec.compareSlices X a b) := by
+  have hrest : ∀ eq : Bool, VPure (do
+      let pc ← Vec.cmpSlices X a b
+      let c ← Vec.cmpSlices X a b
+      VM.forN a.length (fun _ => VM.callback X)
+      VM.forN b.length (fun _ => VM.callback X)
+      pure (eq, pc, c, a.map (·.val) == b.map (·.val)) : VM (Bool × Ordering × Ordering × Bool)) := fun eq =>
+    VPure.bind' (vpure_cmpSlices X hq a b) (fun _ => VPure.bind' (vpure_cmpSlices X hq a b) (fun _ =>
+      VPure.bind' (vpure_forN _ (fun _ => vpure_callback X hq) _) (fun _ =>
+        VPure.bind' (vpure_forN _ (fun _ => vpure_callback X hq) _) (fun _ => VPure.pure' _))))
+  unfold Vec.compareSlices
+  dsimp only
+  split
+  · exact VPure.bind' (vpure_eqSlices X hq a b) (fun eq => hrest eq)
+  · exact hrest false
+
+/-! ### A measure for `count`: what an iterator can still yield -/
+
+/-- the upper bound `size_hint()` reports for an iterator register -/
+def regMeasure : Obj → Nat
+  | .drain _ _ d => d.stop - d.pos
+  | .splice _ _ sp => sp.d.stop - sp.d.pos
+  | .drainFilter _ _ f => f.oldLen - f.pos
+  | .intoIter v _ => if v.isDefault then 0 else v.len
+  | _ => 0
+
+def isIterObj : Obj → Bool
+  | .drain .. | .splice .. | .drainFilter .. | .intoIter .. => true
+  | _ => false
+
+theorem into_reg_step_m (X : Ctx) (v : VSt) (it : IntoIterSt) (sys : Sys)
+    (h : RegOK X (.intoIter v it)) :
+    ∃ o it' v', IntoIter.next X it { sys := sys, v := v } = (.ok (o, it'), { sys := sys, v := v' }) ∧
+      RegOK X (.intoIter v' it') ∧ (o.isSome = true → regMeasure (.intoIter v' it') < regMeasure (.intoIter v it)) := by
+  rcases h with ⟨es, hinv⟩ | ⟨hd, habs⟩
+  · by_cases hlt : 0 < v.len
+    · have hbnd := hinv.bound
+      have hinv' : IntoInv X ({ v with len := v.len - 1 } : VSt) es it := hinv.shrink _ it rfl (by omega)
+      refine ⟨_, _, _, by simpa using into_next_some (s := { sys := sys, v := v }) hinv hlt, .inl ⟨es, ?_⟩, fun _ => ?_⟩
+      · exact { hd := hinv'.hd, full := hinv'.full, ptr := hinv'.ptr, bound := by have := hinv.bound; simp; omega }
+      · simp [regMeasure, hinv.hd]; omega
+    · obtain ⟨h1, _⟩ := into_next_none (s := { sys := sys, v := v }) hinv (by show v.len = 0; omega)
+      exact ⟨none, it, v, by simpa using h1, .inl ⟨es, hinv⟩, fun h => by simp at h⟩
+  · have e1 : VM.lift X GM.isDefault { sys := sys, v := v } = (.ok true, { sys := sys, v := v }) := by
+      rw [lift_isDefault]; exact congrArg (fun b => (Except.ok b, _)) hd
+    refine ⟨none, it, v, ?_, .inr ⟨hd, habs⟩, fun h => by simp at h⟩
+    unfold IntoIter.next; simp only [VM.bind_run, e1, if_true, VM.pure_run]
+
+theorem df_reg_step_m (X : Ctx) (hq : ∀ k, X.o.panicAt k = false) (src : String) (v : VSt) (f : DFSt) (sys : Sys)
+    (h : RegOK X (.drainFilter src v f)) :
+    ∃ st f' s', DrainFilter.next X (f.oldLen - f.pos + 1) f { sys := sys, v := v } = (.ok (st, f'), s') ∧
+      st ≠ .predPanicked ∧ RegOK X (.drainFilter src s'.v f') ∧
+      (∀ e, st = .item e → f'.oldLen - f'.pos < f.oldLen - f.pos) := by
+  rcases h with ⟨kept, junk, rest, hinv⟩ | ⟨hd, habs, ho, hp, hn, hpk⟩
+  · obtain ⟨s', junk', f', hr, hinv', _, _, hol, _⟩ := df_next_spec X hq rest kept junk f { sys := sys, v := v }
+      (f.oldLen - f.pos + 1) hinv (by have := hinv.ps; have := hinv.ol; omega)
+    refine ⟨_, f', s', hr, ?_, .inl ⟨_, _, _, hinv'⟩, ?_⟩
+    · cases (dfNext f.pred f.calls rest).2.1 <;> simp [stepOf]
+    · intro e he
+      have hsome : (dfNext f.pred f.calls rest).2.1.isSome = true := by
+        cases hx : (dfNext f.pred f.calls rest).2.1 with
+        | none => rw [hx] at he; simp [stepOf] at he
+        | some p => rfl
+      have hlt := (dfNext_rest_length f.pred f.calls rest).2 hsome
+      have h1 := hinv'.ps; have h2 := hinv'.ol; have h3 := hinv.ps; have h4 := hinv.ol
+      simp only [List.length_append] at h1 h2
+      omega
+  · refine ⟨.done, f, { sys := sys, v := v }, ?_, by simp, .inr ⟨hd, habs, ho, hp, hn, hpk⟩, fun e he => by simp at he⟩
+    rw [show f.oldLen - f.pos + 1 = 0 + 1 by omega]
+    exact df_default_next X f _ ho hp 0
+
+theorem splice_reg_step_m (X : Ctx) (src : String) (v : VSt) (sp : SpliceSt) (sys : Sys)
+    (h : RegOK X (.splice src v sp)) :
+    ∃ o d', Drain.next sp.d { sys := sys, v := v } = (.ok (o, d'), { sys := sys, v := v }) ∧
+      RegOK X (.splice src v { sp with d := d' }) ∧ (o.isSome = true → d'.stop - d'.pos < sp.d.stop - sp.d.pos) := by
+  rcases h with ⟨es, st, en, hinv⟩ | ⟨hd, habs, hge⟩
+  · obtain ⟨o, d', hr, hok, hm⟩ := drain_reg_step_m X src v sp.d sys false (.inl ⟨es, st, en, hinv⟩)
+    simp only [Bool.false_eq_true, if_false] at hr
+    refine ⟨o, d', hr, ?_, hm⟩
+    rcases hok with ⟨es', st', en', hinv'⟩ | ⟨hd', _, _, _⟩
+    · exact .inl ⟨es', st', en', hinv'⟩
+    · rw [hinv.hd] at hd'; cases hd'
+  · obtain ⟨h1, _⟩ := drain_next_none sp.d { sys := sys, v := v } hge
+    exact ⟨none, sp.d, h1, .inr ⟨hd, habs, hge⟩, fun h => by simp at h⟩
+
+theorem world_get_sys (w : World) (sys : Sys) (r : String) : ({ w with sys := sys } : World).get r = w.get r := rfl
+
+/-- one `next` on an iterator register: all registers stay well formed, the register still holds an iterator, and
+    either the step reported the end or it handed out an element and the iterator can yield strictly less -/
+theorem next_measure (X : Ctx) (hq : ∀ k, X.o.panicAt k = false) (w : World) (it : String) (o : Obj) (hw : WFW X w)
+    (hg : w.get it = some o) (hi : isIterObj o = true) :
+    ∃ o', (step X w (.next it)).1.get it = some o' ∧ isIterObj o' = true ∧ WFW X (step X w (.next it)).1 ∧
+      ((step X w (.next it)).2 = .none ∨ (∃ e, (step X w (.next it)).2 = .some e ∧ regMeasure o' < regMeasure o)) := by
+  have hok := hw it o hg
+  unfold step
+  dsimp only
+  cases o with
+  | drain src v d =>
+    simp only [hg]
+    obtain ⟨r, d', hr, hok', hm⟩ := drain_reg_step_m X src v d w.sys false hok
+    simp only [Bool.false_eq_true, if_false] at hr
+    simp only [runOn, hr]
+    refine ⟨.drain src v d', by rw [world_get_set]; simp, rfl, (hw.sys _).set_ok it _ hok', ?_⟩
+    cases r with
+    | none => exact .inl rfl
+    | some e => exact .inr ⟨e, rfl, hm rfl⟩
+  | splice src v sp =>
+    simp only [hg]
+    obtain ⟨r, d', hr, hok', hm⟩ := splice_reg_step_m X src v sp w.sys hok
+    simp only [runOn, hr]
+    refine ⟨.splice src v { sp with d := d' }, by rw [world_get_set]; simp, rfl, (hw.sys _).set_ok it _ hok', ?_⟩
+    cases r with
+    | none => exact .inl rfl
+    | some e => exact .inr ⟨e, rfl, hm rfl⟩
+  | drainFilter src v f =>
+    simp only [hg]
+    obtain ⟨st, f', s', hr, hnp, hok', hm⟩ := df_reg_step_m X hq src v f w.sys hok
+    simp only [runOn, hr]
+    cases st with
+    | item e => exact ⟨.drainFilter src s'.v f', by rw [world_get_set]; simp, rfl, (hw.sys _).set_ok it _ hok', .inr ⟨e, rfl, hm e rfl⟩⟩
+    | done => exact ⟨.drainFilter src s'.v f', by rw [world_get_set]; simp, rfl, (hw.sys _).set_ok it _ hok', .inl rfl⟩
+    | predPanicked => exact absurd rfl hnp
+  | intoIter v i =>
+    simp only [hg]
+    obtain ⟨r, i', v', hr, hok', hm⟩ := into_reg_step_m X v i w.sys hok
+    simp only [runOn, hr]
+    refine ⟨.intoIter v' i', by rw [world_get_set]; simp, rfl, (hw.sys _).set_ok it _ hok', ?_⟩
+    cases r with
+    | none => exact .inl rfl
+    | some e => exact .inr ⟨e, rfl, hm rfl⟩
+  | vec v => simp [isIterObj] at hi
+  | lent => simp [isIterObj] at hi
+  | gone => simp [isIterObj] at hi
+
+/-! ### `from_str` and `extend_ref`: a temporary vector of a fixed element type, built, checked and dropped inside -/
+
+theorem fromStrProg_safe (Xb : Ctx) (hq : ∀ k, Xb.o.panicAt k = false) (hz : 0 < Xb.c.elemSize) (n : Nat) (s : St) (hv : s.v = {}) :
+    (∃ l s', fromStrProg Xb n s = (.ok l, s')) ∨ (∃ p s', fromStrProg Xb n s = (.error p, s') ∧ Panic.benign p = true) := by
+  unfold fromStrProg
+  simp only [VM.bind_run]
+  rcases with_capacity_room Xb hz s hv n with ⟨s1, hr, habs1, hroom, hzero⟩ | ⟨p, s1, hr, hb, _⟩
+  · rw [hr]
+    simp only
+    -- the fill
+    have hfill : ∃ s2 es, (if n > 0 then fromStrFill Xb n else pure ()) s1 = (.ok (), s2) ∧ Abs Xb s2.v es := by
+      by_cases hn : n > 0
+      · obtain ⟨hd1, hcap1⟩ := hroom hn
+        rw [if_pos hn]
+        obtain ⟨b, hb, hl, _⟩ := habs1.alloc hd1
+        have h4 : VM.lift Xb (as_mut_ptr Xb.env) s1 = (.ok (.at (dataOff s1.v.align)), s1) :=
+          lift_read Xb _ s1 _ (as_mut_ptr_run Xb.env _ hd1 b.lay s1.v.cap hl)
+        obtain ⟨v2, hw, habs2, _, _, hd2, _⟩ := write_tail_abs Xb s1 [] (List.replicate n (⟨0, 97⟩ : Elem)) habs1 hd1
+          (by simp [hcap1])
+        simp only [List.length_nil, List.length_replicate] at hw habs2
+        have h5 := lift_set_len Xb n { s1 with v := v2 } hd2
+        refine ⟨{ s1 with v := { v2 with len := n } }, List.replicate n (⟨0, 97⟩ : Elem), ?_, by simpa using habs2⟩
+        unfold fromStrFill
+        simp only [VM.bind_run, h4, hw, h5]
+      · rw [if_neg hn]; exact ⟨s1, [], rfl, habs1⟩
+    obtain ⟨s2, es, hf, habs2⟩ := hfill
+    rw [hf]
+    simp only
+    have hL : (hsOf s2.v s2.sys.allocIdx).L = es.length := habs2.len_eq
+    have h6 : VM.lift Xb (len Xb.env) s2 = (.ok es.length, s2) := lift_read Xb _ s2 _ (by rw [len_run, hL])
+    obtain ⟨s3, hd3⟩ := dropVec_ok Xb hq s2 es habs2
+    rw [h6]
+    simp only [hd3, VM.pure_run]
+    exact .inl ⟨_, _, rfl⟩
+  · rw [hr]; exact .inr ⟨p, s1, rfl, hb⟩
+
+theorem extendRefProg_safe (Xb : Ctx) (hq : ∀ k, Xb.o.panicAt k = false) (hz : 0 < Xb.c.elemSize) (pre : Nat) (vals : List Int)
+    (s : St) (hv : s.v = {}) :
+    (∃ l s', extendRefProg Xb pre vals s = (.ok l, s')) ∨ (∃ p s', extendRefProg Xb pre vals s = (.error p, s') ∧ Panic.benign p = true) := by
+  unfold extendRefProg
+  simp only [VM.bind_run]
+  have hround : ∀ (n : Nat) (g : Nat → Elem), RoundSpec Xb n (fun _ _ => True) (fun i => Vec.push Xb (g i)) := by
+    intro n g i s1 acc _ habs
+    have hp := push_spec Xb s1 acc (g i) habs
+    show (∃ e s', Vec.push Xb (g i) s1 = (.ok (), s') ∧ Abs Xb s'.v (acc ++ [e]) ∧ True) ∨
+      (∃ p s', Vec.push Xb (g i) s1 = (.error p, s') ∧ Panic.benign p = true ∧ s'.v = s1.v)
+    generalize Vec.push Xb (g i) s1 = out at hp
+    cases hp with
+    | pushed s' ha _ => exact .inl ⟨_, s', rfl, ha, trivial⟩
+    | stopped p s' hv' hb => exact .inr ⟨p, s', rfl, hb, hv'⟩
+  rcases with_capacity_room Xb hz s hv pre with ⟨s1, hr, habs1, _, _⟩ | ⟨p, s1, hr, hb, _⟩
+  · rw [hr]
+    simp only
+    rcases forN_spec Xb pre _ _ (hround pre (fun i => ⟨0, i⟩)) s1 [] habs1 with ⟨l1, s2, hr2, habs2, _, _⟩ | ⟨p, s2, acc, hr2, hb, _⟩
+    · rw [hr2]
+      simp only
+      rcases forN_spec Xb vals.length _ _ (hround vals.length (fun i => ⟨0, vals.getD i 0⟩)) s2 _ habs2 with
+        ⟨l2, s3, hr3, habs3, _, _⟩ | ⟨p, s3, acc, hr3, hb, _⟩
+      · rw [hr3]
+        simp only
+        have hL : (hsOf s3.v s3.sys.allocIdx).L = ([] ++ l1 ++ l2).length := habs3.len_eq
+        have h6 : VM.lift Xb (len Xb.env) s3 = (.ok ([] ++ l1 ++ l2).length, s3) := lift_read Xb _ s3 _ (by rw [len_run, hL])
+        obtain ⟨s4, hd4⟩ := dropVec_ok Xb hq s3 _ habs3
+        rw [h6]
+        simp only [hd4, VM.pure_run]
+        exact .inl ⟨_, _, rfl⟩
+      · rw [hr3]; exact .inr ⟨p, s3, rfl, hb⟩
+    · rw [hr2]; exact .inr ⟨p, s2, rfl, hb⟩
+  · rw [hr]; exact .inr ⟨p, s1, rfl, hb⟩
+
 /-! ### The register machine -/
 
 /-- the operations this theorem covers -/
@@ -666,7 +934,7 @@ def opCovered : Op → Bool
   | .shrink_to .. | .shrink_to_fit _ | .forget _ | .drop _ | .split_off .. | .drain_vec .. | .clone .. | .clone_from ..
   | .append .. | .drain .. | .splice .. | .drain_filter .. | .into_iter .. | .next _ | .next_back _ | .size_hint _ | .len _ | .as_slice _
   | .views _ | .iter_views _ | .serialize _ | .leak _ | .clone_iter .. | .deserialize .. | .deserialize_in_place ..
-  | .raw_parts _ | .raw_part _ => true
+  | .raw_parts _ | .raw_part _ | .fill_spare .. | .spare _ | .split_spare _ | .with_alignment .. | .compare .. | .from_str _ | .extend_ref .. => true
   | _ => false
 
 /-- the same with the sanity of the output established together with the run -/
@@ -1207,6 +1475,70 @@ theorem C03_world_step_partial (X : Ctx) (hq : ∀ k, X.o.panicAt k = false) (hz
     cases o with
     | none => exact .inl ⟨Out.none, s, es, by simp only [VM.bind_run, h2, h3, ho]; rfl, h, trivial⟩
     | some lc => exact .inl ⟨Out.nums [lc.1, lc.2], s, es, by simp only [VM.bind_run, h2, h3, ho]; rfl, h, trivial⟩
+  case with_alignment r n a =>
+    dsimp only
+    cases hf : w.fresh r with
+    | false => simp only [Bool.not_false, if_true]; exact ⟨hw, trivial⟩
+    | true =>
+      simp only [Bool.not_true, Bool.false_eq_true, if_false, runOn]
+      rcases with_alignment_mem X hz { sys := w.sys, v := {} } rfl n a with ⟨e, hr⟩ | hmem
+      · rw [hr]; exact ⟨hw.sys _, trivial⟩
+      · generalize VM.lift X (with_alignment X.env n a) { sys := w.sys, v := {} } = out at hmem
+        cases hmem with
+        | same => exact ⟨(hw.sys _).set_vec r {} [] (Abs.sentinel_abs X hz), trivial⟩
+        | stopped p s' _ hp _ => exact ⟨hw.sys _, hp⟩
+        | grown s' ha _ _ _ _ => exact ⟨(hw.sys _).set_vec r s'.v [] ha, trivial⟩
+  case compare r r2 =>
+    dsimp only
+    split
+    · rename_i a b h1 h2
+      obtain ⟨ea, ha⟩ := hw r _ h1
+      obtain ⟨eb, hb⟩ := hw r2 _ h2
+      have hca := contents_run X { sys := w.sys, v := a } ea ha
+      have hcb := contents_run X { sys := w.sys, v := b } eb hb
+      have hcb' : VM.onVec b (Vec.contents X) { sys := w.sys, v := a } = (.ok (eb, b), { sys := w.sys, v := a }) :=
+        onVec_read b _ { sys := w.sys, v := a } _ hcb
+      obtain ⟨res, s', hr, _⟩ := vpure_compareSlices X hq ea eb { sys := w.sys, v := a }
+      simp only [runOn, VM.bind_run, hca, hcb', hr]
+      obtain ⟨eq, pc, c, heq⟩ := res
+      exact ⟨hw.sys _, trivial⟩
+    · exact ⟨hw, trivial⟩
+  case from_str n =>
+    dsimp only
+    split
+    · exact ⟨hw, trivial⟩
+    · simp only [runOn]
+      rcases fromStrProg_safe { X with c := ⟨1, 1, false⟩ } hq (by show 0 < 1; omega) n { sys := w.sys, v := {} } rfl with
+        ⟨l, s', hr⟩ | ⟨p, s', hr, hb⟩
+      · rw [hr]; exact ⟨hw.sys _, trivial⟩
+      · rw [hr]; exact ⟨hw.sys _, hb⟩
+  case extend_ref pre it =>
+    dsimp only
+    split
+    · exact ⟨hw, trivial⟩
+    · simp only [runOn]
+      rcases extendRefProg_safe { X with c := ⟨4, 4, false⟩ } hq (by show 0 < 4; omega) pre _ { sys := w.sys, v := {} } rfl with
+        ⟨l, s', hr⟩ | ⟨p, s', hr, hb⟩
+      · rw [hr]; exact ⟨hw.sys _, trivial⟩
+      · rw [hr]; exact ⟨hw.sys _, hb⟩
+  case spare r =>
+    refine onVecReg_map_safe X w r (Vec.spare X) (fun n => Out.nums [n]) ?_ (fun _ => trivial) hw
+    intro s es h
+    exact .inl ⟨_, s, es, (C07_spare_exact X s es h).1, h⟩
+  case split_spare r =>
+    refine onVecReg_safe' X w r _ hw ?_
+    intro s es h
+    refine .inl ⟨Out.nums [es.length, (hsOf s.v s.sys.allocIdx).C - es.length], s, es, ?_, h, trivial⟩
+    simp only [VM.bind_run, (C07_spare_exact X s es h).2]
+    rfl
+  case fill_spare r viaSplit k val =>
+    dsimp only
+    split
+    · exact ⟨hw, trivial⟩
+    · refine onVecReg_map_safe X w r (Vec.fill_spare X viaSplit k val) (fun n => Out.nums [n]) ?_ (fun _ => trivial) hw
+      intro s es h
+      obtain ⟨s', new, hr, ha, _⟩ := C07_fill_spare X viaSplit k val s es h
+      exact .inl ⟨_, s', _, hr, ha⟩
   case raw_part r =>
     refine onVecReg_safe' X w r _ hw ?_
     intro s es h
@@ -1245,9 +1577,102 @@ theorem nthLoop_safe (X : Ctx) (hq : ∀ k, X.o.panicAt k = false) (hz : 0 < X.c
         subst h4
         exact ih w'' h3
 
-/-- `stepAll` (what the driver runs): the covered operations plus `nth` / `nth_back` -/
+/-- `dropIn` does not touch the registers -/
+theorem dropIn_get (X : Ctx) (w : World) (e : Elem) (r : String) : (dropIn X w e).1.get r = w.get r := by
+  unfold dropIn; simp only [runOn]; rfl
+
+/-- the provided `count` (a `fold` over `next`, then the iterator is dropped): with fuel above what the iterator can
+    still yield it never runs out of fuel, keeps every register well formed and ends sanely -/
+theorem countLoop_safe (X : Ctx) (hq : ∀ k, X.o.panicAt k = false) (hz : 0 < X.c.elemSize) (it : String) :
+    ∀ (fuel acc : Nat) (w : World) (o : Obj), WFW X w → w.get it = some o → isIterObj o = true → regMeasure o < fuel →
+    WFW X (countLoop X it fuel acc w).1 ∧ outSane (countLoop X it fuel acc w).2 := by
+  intro fuel
+  induction fuel with
+  | zero => intro acc w o _ _ _ hm; omega
+  | succ fuel ih =>
+    intro acc w o hw hg hi hm
+    obtain ⟨o', hg', hi', hw', hout⟩ := next_measure X hq w it o hw hg hi
+    unfold countLoop
+    cases hs : step X w (.next it) with
+    | mk w1 out =>
+      rw [hs] at hg' hw' hout
+      simp only at hg' hw' hout
+      rcases hout with hnone | ⟨e, hsome, hlt⟩
+      · subst hnone
+        simp only
+        obtain ⟨h1, h2⟩ := C03_world_step_partial X hq hz w1 (.drop it) rfl hw'
+        cases hd : step X w1 (.drop it) with
+        | mk w2 o2 =>
+          rw [hd] at h1 h2
+          cases o2 <;> first | exact ⟨h1, trivial⟩ | exact ⟨h1, h2⟩
+      · subst hsome
+        simp only
+        obtain ⟨h3, h4⟩ := dropIn_safe X hq w1 e hw'
+        cases hdi : dropIn X w1 e with
+        | mk w2 r =>
+          rw [hdi] at h3 h4
+          simp only at h4
+          subst h4
+          have hg2 : w2.get it = some o' := by
+            have := dropIn_get X w1 e it
+            rw [hdi] at this; simp only at this; rw [this]; exact hg'
+          exact ih (acc + 1) w2 o' h3 hg2 hi' (by omega)
+
+theorem world_get_unset (w : World) (r r' : String) : (w.unset r).get r' = if r' = r then none else w.get r' := by
+  unfold World.unset World.get
+  simp only
+  induction w.regs with
+  | nil => by_cases h : r' = r <;> simp [h]
+  | cons p rest ih =>
+    by_cases hp : p.1 = r
+    · have : (p.1 != r) = false := by simp [hp]
+      simp only [List.filter_cons, this, Bool.false_eq_true, if_false]
+      by_cases h : r' = r
+      · simpa [h] using ih
+      · have h2 : (p.1 == r') = false := by rw [hp]; simp; exact fun e => h e.symm
+        simp only [List.find?_cons, h2]
+        simpa [h] using ih
+    · have : (p.1 != r) = true := by simp [hp]
+      simp only [List.filter_cons, this, if_true, List.find?_cons]
+      by_cases h3 : (p.1 == r') = true
+      · have : r' ≠ r := by intro e; subst e; simp [hp] at h3
+        simp [h3, this]
+      · simp only [h3]
+        exact ih
+
+theorem WFW.unset {X : Ctx} {w : World} (h : WFW X w) (r : String) : WFW X (w.unset r) := by
+  intro r' o hg
+  rw [world_get_unset] at hg
+  by_cases hr : r' = r
+  · simp [hr] at hg
+  · simp [hr] at hg; exact h r' o hg
+
+/-- the provided `Clone::clone_from` between two `IntoIter` registers -/
+theorem cloneFromIter_safe (X : Ctx) (hq : ∀ k, X.o.panicAt k = false) (hz : 0 < X.c.elemSize) (w : World) (it src : String)
+    (hw : WFW X w) : WFW X (cloneFromIter X w it src).1 ∧ outSane (cloneFromIter X w it src).2 := by
+  unfold cloneFromIter
+  split
+  · exact ⟨hw, trivial⟩
+  · split
+    · obtain ⟨h1, h2⟩ := C03_world_step_partial X hq hz w (.clone_iter src tmpReg) rfl hw
+      cases hs : step X w (.clone_iter src tmpReg) with
+      | mk w1 o1 =>
+        rw [hs] at h1 h2
+        cases o1 <;> try exact ⟨h1.unset tmpReg, h2⟩
+        -- the clone was made: drop the old value, store the new one
+        obtain ⟨h3, h4⟩ := C03_world_step_partial X hq hz w1 (.drop it) rfl h1
+        have key : ∀ res : World × Out, WFW X res.1 → outSane res.2 →
+            WFW X ((match res.1.get tmpReg with | some o => res.1.set it o | none => res.1).unset tmpReg) ∧ outSane res.2 := by
+          intro res h3 h4
+          cases hg : res.1.get tmpReg with
+          | none => exact ⟨h3.unset tmpReg, h4⟩
+          | some o => exact ⟨(h3.set_ok it o (h3 tmpReg o hg)).unset tmpReg, h4⟩
+        exact key _ h3 h4
+    · exact ⟨hw, trivial⟩
+
+/-- `stepAll` (what the driver runs): the covered operations plus `nth` / `nth_back` / `count` / `clone_from_iter` -/
 def opCoveredAll : Op → Bool
-  | .nth .. | .nth_back .. => true
+  | .nth .. | .nth_back .. | .count _ | .clone_from_iter .. => true
   | op => opCovered op
 
 theorem C03_world_stepAll_partial (X : Ctx) (hq : ∀ k, X.o.panicAt k = false) (hz : 0 < X.c.elemSize) (w : World) (op : Op)
@@ -1257,8 +1682,25 @@ theorem C03_world_stepAll_partial (X : Ctx) (hq : ∀ k, X.o.panicAt k = false) 
     first
     | (unfold stepAll; exact C03_world_step_partial X hq hz w _ hc hw)
     | skip
-  case count it => simp [opCovered] at hc
-  case clone_from_iter it src => simp [opCovered] at hc
+  case count it =>
+    simp only [stepAll]
+    cases hg : w.get it with
+    | none =>
+      have : step X w (.size_hint it) = (w, .badOp) := by unfold step; simp only [hg]
+      simp only [this]; exact ⟨hw, trivial⟩
+    | some o =>
+      cases hio : isIterObj o with
+      | false =>
+        have : step X w (.size_hint it) = (w, .badOp) := by
+          unfold step; cases o <;> simp [isIterObj] at hio <;> simp only [hg]
+        simp only [this]; exact ⟨hw, trivial⟩
+      | true =>
+        have hsh : step X w (.size_hint it) = (w, .hint (match o with
+            | .drainFilter .. => 0 | _ => regMeasure o) (some (regMeasure o))) := by
+          unfold step; cases o <;> simp [isIterObj] at hio <;> simp only [hg, regMeasure, Drain.size_hint]
+        simp only [hsh]
+        exact countLoop_safe X hq hz it (regMeasure o + 2) 0 w o hw hg hio (by omega)
+  case clone_from_iter it src => simp only [stepAll]; exact cloneFromIter_safe X hq hz w it src hw
   case nth it k =>
     simp only [stepAll]
     split
@@ -1282,7 +1724,7 @@ def runWorld (X : Ctx) : List Op → World → World × List Out
 
 /-- **every history of covered operations over any number of registers** (run with `stepAll`, as the driver does), started from the empty machine (or any
     well-formed one): all registers well formed at the end, no step ended in an illegal access, a failed internal
-    assertion, a hang or an abort other than the allocation-failure abort -/
+    assertion or a hang -/
 theorem C03_world_histories_partial (X : Ctx) (hq : ∀ k, X.o.panicAt k = false) (hz : 0 < X.c.elemSize) (ops : List Op)
     (hc : ∀ op ∈ ops, opCoveredAll op = true) (w : World) (hw : WFW X w) :
     WFW X (runWorld X ops w).1 ∧ ∀ o ∈ (runWorld X ops w).2, outSane o := by
@@ -1298,14 +1740,27 @@ theorem C03_world_histories_partial (X : Ctx) (hq : ∀ k, X.o.panicAt k = false
     · exact h2
     · exact h4 o ho
 
+/-- every operation of the line protocol is covered -/
+theorem all_ops_covered (op : Op) : opCoveredAll op = true := by cases op <;> rfl
+
+/-- **C03 / C01 for the whole protocol**: from the empty machine (or any well-formed one), EVERY finite sequence of
+    protocol operations — any operation on any register name with any arguments, in any order — leaves every
+    register well formed and no step ends in an illegal access, a failed internal assertion or a hang (callbacks that
+    do not panic; panicking callbacks are C04's subject) -/
+theorem C03_world_all_histories (X : Ctx) (hq : ∀ k, X.o.panicAt k = false) (hz : 0 < X.c.elemSize) (ops : List Op)
+    (w : World) (hw : WFW X w) :
+    WFW X (runWorld X ops w).1 ∧ ∀ o ∈ (runWorld X ops w).2, outSane o :=
+  C03_world_histories_partial X hq hz ops (fun op _ => all_ops_covered op) w hw
+
 /-- non-vacuity: the empty machine is well formed, and a three-register history is covered -/
 example (X : Ctx) : WFW X {} := by intro r o h; simp [World.get] at h
 example : ∀ op ∈ [Op.new "a", .with_capacity "b" 4, .push "a" 1, .extend "b" [some 1, none], .remove "a" 5, .drop "b",
     .macro_repeat "c" 7 3, .dedup "c", .drain "c" .unbounded (.excluded 2) "i", .next "i", .push "a" 2, .next_back "i",
-    .into_iter "a" "j", .nth "j" 1, .drop "i", .push "c" 9, .as_slice "j", .nth_back "j" 0, .forget "j"], opCoveredAll op = true := by decide
+    .into_iter "a" "j", .nth "j" 1, .drop "i", .push "c" 9, .as_slice "j", .nth_back "j" 0, .clone_iter "j" "k", .count "k", .forget "j"], opCoveredAll op = true := by decide
 
 end MV.Props
 
 #print axioms MV.Props.C03_world_step_partial
 #print axioms MV.Props.C03_world_histories_partial
 #print axioms MV.Props.C03_world_stepAll_partial
+#print axioms MV.Props.C03_world_all_histories
